@@ -33,6 +33,7 @@ type outcome struct {
 	key        string
 	steps      int
 	tag        string
+	straddle   bool // an honest attestation of a slot whose committees span subnet 63 -> 0 (count per slot does not divide 64)
 }
 
 type libResult struct {
@@ -240,7 +241,7 @@ func run(c *Case) (fail *report.Failure, out *outcome) {
 	}
 	be := gossipbackend.NewBackend(bv.lib, c.ClockMs)
 	mctx := gossipmodel.NewCtx(bv.rx, c.ClockMs)
-	out.fork, out.target, out.steps, out.tag = pl.fork, pl.target, len(pl.steps), pl.tag
+	out.fork, out.target, out.steps, out.tag, out.straddle = pl.fork, pl.target, len(pl.steps), pl.tag, pl.straddle
 	topic := c.Msg.Topic
 	id := c.Msg.Corrupt
 	if id == "" {
